@@ -173,6 +173,7 @@ type specKS struct {
 func (k specKS) MarshalJSON() ([]byte, error) {
 	return []byte(fmt.Sprintf(`{"group":%d,"data_len":%d}`, k.group, k.dlen)), nil
 }
+
 type class struct {
 	name string
 	kind string // parrot | randomized | fingerprinted | custom | quic
